@@ -341,6 +341,12 @@ func findFaultOp(name string) *faultOp {
 func buildFaultOp(op string, p []int, variant string, cbs []Cb, fp *faultPlan, src ro.Observable[int]) (attachFn, func(), error) {
 	nop := func() {}
 	switch op {
+	case "RawDirect":
+		// a hand-written observer (no status word of its own) subscribed DIRECTLY to the source: everything it is handed is
+		// recorded, so what it sees is exactly what the observable's own subscriber lets through
+		return func(ctx context.Context, rec *Recorder) ro.Subscription {
+			return src.SubscribeWithContext(ctx, &recObserver{rec: rec})
+		}, nop, nil
 	case "Tap":
 		return attach(ro.TapWithContext(
 			func(ctx context.Context, v int) { fp.fire("cb") },
@@ -721,6 +727,23 @@ func (o *rawObserver) IsClosed() bool                          { return false }
 func (o *rawObserver) HasThrown() bool                         { return false }
 func (o *rawObserver) IsCompleted() bool                       { return false }
 
+// recObserver: a hand-written ro.Observer[int] that records into a Recorder in the format of `observer` and guards nothing
+type recObserver struct{ rec *Recorder }
+
+func (o *recObserver) Next(v int) { o.NextWithContext(context.Background(), v) }
+func (o *recObserver) NextWithContext(ctx context.Context, v int) {
+	o.rec.add("N" + renderVal(v) + "/" + renderCtx(ctx))
+}
+func (o *recObserver) Error(err error) { o.ErrorWithContext(context.Background(), err) }
+func (o *recObserver) ErrorWithContext(ctx context.Context, err error) {
+	o.rec.add("E" + renderErr(err) + "/" + renderCtx(ctx))
+}
+func (o *recObserver) Complete()                               { o.CompleteWithContext(context.Background()) }
+func (o *recObserver) CompleteWithContext(ctx context.Context) { o.rec.add("C/" + renderCtx(ctx)) }
+func (o *recObserver) IsClosed() bool                          { return false }
+func (o *recObserver) HasThrown() bool                         { return false }
+func (o *recObserver) IsCompleted() bool                       { return false }
+
 // ---------- generation ----------
 
 func faultScripts(tier string, r *rand.Rand) [][]Tok {
@@ -811,6 +834,24 @@ func genFault(tier string, seed int64, only string) []*Case {
 	scripts := faultScripts(tier, r)
 	var cases []*Case
 	id := 0
+	// a hand-written observer subscribed directly to an observable whose subscribe function panics after i notifications
+	// (also after its own terminal), both constructors, synchronous source
+	if only == "" || only == "RawDirect" {
+		for _, script := range scripts {
+			for i := 0; i <= len(script); i++ {
+				for _, what := range []string{"pe5", "pv6"} {
+					for _, safe := range []string{"0", "1"} {
+						id++
+						cases = append(cases, newCase(id, "kind", "fault", "op", "RawDirect", "p", "-", "var", "plain", "cb", "-",
+							"mode", "sync", "sub", "7", "safe", safe, "src", scriptString(script), "faults", "ss:"+strconv.Itoa(i)+":"+what))
+					}
+				}
+			}
+			id++
+			cases = append(cases, newCase(id, "kind", "fault", "op", "RawDirect", "p", "-", "var", "plain", "cb", "-",
+				"mode", "sync", "sub", "7", "safe", "1", "src", scriptString(script), "faults", "-"))
+		}
+	}
 	add := func(op *faultOp, p []int, variant, cb, mode string, script []Tok, faults string) {
 		id++
 		cases = append(cases, newCase(id, "kind", "fault", "op", op.name, "p", intsString(p), "var", variant, "cb", cb,
